@@ -377,6 +377,8 @@ class Engine:
             return
         if st.qctx:
             st.qctx[-1].append((z3.And(*st.guards, cond) if st.guards else cond, exc, line))
+            # (as in do_raise_q: the assumptions made in the body so far are known for the element that raises here)
+            self._sink_marks.setdefault(id(st.qctx[-1]), []).append(len(st.pc))
             return
         self.do_raise(st, exc, line, cond)
         st.assume(z3.Not(cond))
@@ -1050,6 +1052,10 @@ class Engine:
                     st.assume(ty.len(rest.t) == n - 1)
                     st.assume(z3.ForAll([i], z3.Implies(z3.And(0 <= i, i < n - 1), ri == z3.Select(ty.arr(v.t), i + 1)),
                                         patterns=[ri]))
+                    # the same link stated from the source's side: a ground seq[t] makes its place in `rest` known
+                    vi = z3.Select(ty.arr(v.t), i)
+                    st.assume(z3.ForAll([i], z3.Implies(z3.And(1 <= i, i < n), z3.Select(ty.arr(rest.t), i - 1) == vi),
+                                        patterns=[vi]))
                     rest.mut = True
                     self.assign(tgt.elts[1].value, rest, st, node)
                     return
@@ -1813,8 +1819,9 @@ class Engine:
                 e = Val(e.ty, lift(e.t), e.mut)
         rng = z3.And(0 <= ic, ic < n)
         marks = self._sink_marks.pop(id(sink), [])
+        base_len = len(st.pc)  # (the loop below adds to st.pc: the marks count from the length before it)
         for q_, (cnd, exc, line) in enumerate(sink):
-            known = extra[:max(0, marks[q_] - len(st.pc))] if q_ < len(marks) else []
+            known = extra[:max(0, marks[q_] - base_len)] if q_ < len(marks) else []
             self.do_raise_q(st, z3.And(rng, *known, cnd), exc, line)
             j = z3.Int(fresh_name("cj"))
             st.assume(z3.ForAll([j], z3.Implies(z3.And(0 <= j, j < n), z3.Not(z3.substitute(cnd, (ic, j))))))
